@@ -196,12 +196,15 @@ func flagSetAround(fn *ssa.Function, from ssa.Instruction, load ssa.Instruction,
 		return false
 	}
 	// store between load and from on every path?
-	if load != nil && load.Parent() == fn {
-		if pathAvoiding(fn, load, func(in ssa.Instruction) bool { return in == from }, isSet) == nil {
+	// the effect may sit in a private helper used only here (`st.halfClosed = true; return st.sendHalfClose()`): paths are
+	// followed through the helper's only call site
+	root := regionRoot(fn)
+	if load != nil && regionRoot(load.Parent()) == root {
+		if pathAvoiding(root, load, func(in ssa.Instruction) bool { return in == from }, isSet) == nil {
 			return true, "flag set on every path between the test and the effect"
 		}
 	}
-	if esc := pathAvoiding(fn, from, isExit, isSet); esc != nil {
+	if esc := pathAvoiding(root, from, isExit, isSet); esc != nil {
 		return false, "a path from the effect reaches a function exit without setting the flag"
 	}
 	return true, "flag set on every path from the effect to the end of the critical section"
